@@ -145,8 +145,9 @@ for directed in (False, True):
                                 T_paths, body, cfg=dict(directed=directed, strnodes=strnodes, ids=ids, N=N, u=u, v=v, start_none=sn,
                                                         end_none=en, part=part),
                                 tier="quick" if quick else "thorough", timeout=900 if quick else 3000,
+                                # (a path back to the source within two ids would be an immediate reversal: only "no_path" there)
                                 tags=(["multi_hop"] + (["root_absent"] if part in (None, 0) and not sn else [])) if v is None
-                                else ["multi_hop", "no_path"], twins=1,
+                                else (["no_path"] if (v == u and len(ids) < 3) else ["multi_hop", "no_path"]), twins=1,
                                 bounds="%s over %d %s nodes, snapshot ids %s, lazily decided presence bit per (pair, id), source node "
                                        "index %d, target %s, window %s (symbolic bounds inside the id range)" %
                                        ("directed" if directed else "undirected", N, "string" if strnodes else "int", ids, u,
